@@ -84,6 +84,13 @@ def deleteBody (strict : Bool) (D : List Nat) (o : DeleteOpts) (held : Option Na
   gcLockRelease
   pure stats
 
+/-- The error path of `delete_bands` after the repair: `let _ = gc_lock.release().await`; if the
+removal fails the lock object is still "held" and its `Drop` tries once more. -/
+def gcLockReleaseOnError : Prog Unit := do
+  match ← perform (.removeFile .gcLock) with
+  | .unit => pure ()
+  | _ => gcLockDrop
+
 /-- `Archive::delete_bands`.  An error while the lock is held drops the lock object, whose
 `Drop` removes the lock file. -/
 def deleteBands (strict : Bool) (D : List Nat) (o : DeleteOpts) : Prog DeleteStats := do
@@ -91,7 +98,7 @@ def deleteBands (strict : Bool) (D : List Nat) (o : DeleteOpts) : Prog DeleteSta
   match ← (deleteBody strict D o held).attemptAll with
   | .ok st => pure st
   | .err e =>
-    gcLockDrop
+    gcLockReleaseOnError            -- explicit release on the error path (then Drop, if that failed)
     .fail e
   | .panic site =>
     gcLockDrop                      -- unwinding drops the lock object too
